@@ -99,6 +99,17 @@ def seeing_to_r0(seeing, lamda=500.E-9):
     return 0.98*lamda/(seeing*numpy.pi/(180.*3600.))
 
 
+def _along_axis(profile, cn2, axis):
+    """
+    A 1-d altitude or wind vector shared by all the profiles of a stacked cn2 array lies along the integration axis
+    """
+    if numpy.ndim(profile) == 1 and numpy.ndim(cn2) > 1:
+        shape = [1] * numpy.ndim(cn2)
+        shape[axis] = -1
+        return numpy.reshape(profile, shape)
+    return profile
+
+
 def coherenceTime(cn2, v, lamda=500.E-9, axis=-1):
     """
     Calculates the coherence time from profiles of the Cn2 and wind velocity
@@ -114,6 +125,7 @@ def coherenceTime(cn2, v, lamda=500.E-9, axis=-1):
     Returns:
         coherence time in seconds
     """
+    v = _along_axis(v, cn2, axis)
     Jv = (cn2*(v**(5./3.))).sum(axis)
     tau0 = (Jv**(-3./5.))*0.0581*lamda**(6./5.)
     return tau0
@@ -134,6 +146,7 @@ def isoplanaticAngle(cn2, h, lamda=500.E-9, axis=-1):
     Returns:
         isoplanatic angle in arcseconds
     """
+    h = _along_axis(h, cn2, axis)
     Jh = (cn2*(h**(5./3.))).sum(axis)
     iso = 0.0581*lamda**(6./5.)*Jh**(-3./5.)*180.*3600./numpy.pi
     return iso
@@ -155,6 +168,7 @@ def rytov_variance(cn2, h, lamda=500.E-9, axis=-1):
         Rytov variance (float)
     """
     k = 2. * numpy.pi / lamda
+    h = _along_axis(h, cn2, axis)
     return 2.25 * k**(7./6.) * (cn2*h**(5./6.)).sum(axis)
 
 
